@@ -273,8 +273,8 @@ def explore(make, files, bound, opcodes=False, check=None, max_runs=None):
                 pass
     # determinism proof: the default schedule twice
     s1, c1 = run_schedule(make, [], files, opcodes)
-    s2, c2 = run_schedule(make, [], files, opcodes)
     o1, _ = check(s1, c1)
+    s2, c2 = run_schedule(make, [], files, opcodes)
     o2, _ = check(s2, c2)
     deterministic = (s1.trace == s2.trace and s1.points == s2.points and o1 == o2)
     if not deterministic:
